@@ -1013,6 +1013,70 @@ def _val_tt_clip(shape, req):
 
 
 # ----------------------------------------------------------------------------
+# ----------------------------------------------------------------------------
+# class wrappers: fit_transform with the constructor defaults returns a decomposition of the input's shape
+# ----------------------------------------------------------------------------
+_CLASSES = ["CP", "RandomizedCP", "CP_NN", "CP_NN_HALS", "ConstrainedCP", "Tucker", "Tucker_NN", "Tucker_NN_HALS",
+            "TensorTrain", "TensorRing", "TensorRingALS", "Parafac2"]
+
+
+@st.composite
+def _class_case(draw):
+    name = draw(st.sampled_from(_CLASSES))
+    shape = [draw(st.integers(2, 4)) for _ in range(3)]
+    return {"cls": name, "x": {"s": shape, "seed": draw(st.integers(0, 10 ** 6)), "k": "uniform"},
+            "rank": draw(st.integers(1, 2)), "seed": draw(st.integers(0, 10 ** 6)),
+            "n_iter": draw(st.sampled_from([1, 2, 3])), "defaults_only": draw(st.booleans())}
+
+
+def o_class(c):
+    import tensorly.decomposition as D
+    from tensorly.decomposition import _tucker as TK
+    x = gen.dec(c["x"])
+    name, r = c["cls"], int(c["rank"])
+    Cls = getattr(D, name, None) or getattr(TK, name)
+    kw = {}
+    if name in ("TensorTrain",):
+        kw["rank"] = [1, r, r, 1]
+    elif name in ("TensorRing", "TensorRingALS"):
+        kw["rank"] = [1, r, r, 1] if name == "TensorRing" else [r, r, r, r]
+    elif name in ("Tucker", "Tucker_NN", "Tucker_NN_HALS"):
+        kw["rank"] = [r, r, r]
+    else:
+        kw["rank"] = r
+    if name == "RandomizedCP":
+        kw["n_samples"] = 12
+    if name == "ConstrainedCP":
+        kw["non_negative"] = True
+    if not c["defaults_only"]:
+        if "n_iter_max" in Cls.__init__.__code__.co_varnames:
+            kw["n_iter_max"] = c["n_iter"]
+        if "random_state" in Cls.__init__.__code__.co_varnames:
+            kw["random_state"] = c["seed"]
+    else:
+        # constructor defaults (apart from the mandatory arguments); cap the work where the default budget is large
+        if "n_iter_max" in Cls.__init__.__code__.co_varnames:
+            kw["n_iter_max"] = 3
+    if "verbose" in Cls.__init__.__code__.co_varnames:
+        kw["verbose"] = False          # (one class defaults to printing progress)
+    est = Cls(**kw)
+    data = [x[i] for i in range(x.shape[0])] if name == "Parafac2" else x
+    res = est.fit_transform(data)
+    check(res is not None, "class/returns_decomposition", f"{name}.fit_transform returned None")
+    dec = getattr(est, "decomposition_", res)
+    try:
+        if name == "Parafac2":
+            dense = tl.parafac2_tensor.parafac2_to_tensor(dec)
+        elif hasattr(dec, "to_tensor"):
+            dense = dec.to_tensor()
+        else:
+            raise Fail("class/decomposition_type", f"{name}: result of type {type(dec).__name__} has no to_tensor()")
+    except Fail:
+        raise
+    assert_shape(dense, x.shape, "class/reconstruction_shape")
+    return {"nontrivial": True, "labels": [f"cls={name}", f"defaults_only={c['defaults_only']}"]}
+
+
 def subchecks(tier):
     S = []
     for algo, q in (("parafac", 150), ("nn_mu", 120), ("nn_hals", 80)):
@@ -1030,6 +1094,7 @@ def subchecks(tier):
     S.append(SubCheck("tucker/hooi", _tucker_case(), o_tucker, quick=200, thorough=2000, discard_exc=LIN))
     S.append(SubCheck("partial_tucker/hooi", _partial_case(), o_partial, quick=200, thorough=2000, discard_exc=LIN))
     S.append(SubCheck("tucker/fixed_factors_ranks", _tucker_fixed_case(), o_tucker_fixed, quick=100, thorough=1000, discard_exc=LIN))
+    S.append(SubCheck("classes/fit_transform", _class_case(), o_class, quick=120, thorough=800, discard_exc=LIN))
     for algo in ("mu", "hals"):
         S.append(SubCheck(f"nn_tucker_{algo}/plain", _nntucker_case(algo, False), o_nntucker, quick=80, thorough=800, discard_exc=LIN))
         S.append(SubCheck(f"nn_tucker_{algo}/normalized", _nntucker_case(algo, True), o_nntucker, quick=100, thorough=1000, discard_exc=LIN))
